@@ -114,3 +114,27 @@ Theorem C09_complete_at_end_of_input :
     results rs = take n body.
 Proof. exact reader_complete. Qed.
 Print Assumptions C09_complete_at_end_of_input.
+
+(* ---- translator tie: the model used above (timeout=None) equals the
+   definitions that harness/py2v.py generates from the current
+   poorwsgi/request.py (gen/CachedGen.v, rewritten on every check run), over
+   the Python semantics of lib/Py.v, for every buffer, budget >= 0, block
+   size >= 0, size argument, stream and amount of fuel *)
+Require Import PW.lib.Py PW.gen.CachedGen PW.proofs.CachedGenEq.
+
+Theorem C09_generated_read_is_model :
+  forall b t f tmo block size clk,
+    0 <= t -> 0 <= block ->
+    gen_cached_read (PBytes b) (PInt t) (inj_stream f) tmo (PInt block) (PInt size) clk
+    = inj_out (read block size (St b t f)).
+Proof. exact gen_cached_read_eq. Qed.
+Print Assumptions C09_generated_read_is_model.
+
+Theorem C09_generated_readline_is_model :
+  forall b t f block size clk fuel,
+    0 <= t -> 0 <= block ->
+    gen_cached_readline (PBytes b) (PInt t) (inj_stream f) PNone (PInt block)
+                        (PInt size) clk fuel
+    = inj_out (readline fuel block size (St b t f)).
+Proof. exact gen_cached_readline_eq. Qed.
+Print Assumptions C09_generated_readline_is_model.
